@@ -212,3 +212,73 @@ Proof.
 Qed.
 
 End WithKinds.
+
+(* ---- C05, possibility form of "a timeout that is not cleared does run provided the loop keeps running" ---- *)
+Section TimerCanRun.
+Variable kind_of : Z -> option subkind.
+
+Lemma run_evs_app l : forall s s1 r s', run_evs kind_of s l = Some s1 -> run_evs kind_of s1 r = Some s' -> run_evs kind_of s (l ++ r) = Some s'.
+Proof.
+  induction l as [|e l IH]; intros s s1 r s' H1 H2; cbn in *; [inversion H1; subst; exact H2|].
+  destruct (do_ev kind_of s e) as [s2|]; [eapply IH; eassumption|discriminate].
+Qed.
+
+Lemma find_live_positive ts id t : find_t ts id = Some t -> tj_cancelled t = false -> 0 < live_of ts.
+Proof.
+  induction ts as [|u ts IH]; cbn; [discriminate|]. unfold live_of in *. cbn [filter].
+  destruct (tj_id u =? id).
+  - intros H Hc. inversion H; subst. rewrite Hc. cbn [negb length]. lia.
+  - intros H Hc. specialize (IH H Hc). destruct (negb (tj_cancelled u)); cbn [length]; lia.
+Qed.
+
+(* In every reachable state in which the run thread is at the head of its loop, a timeout that was set and neither fired nor
+   cleared keeps the loop from leaving (the live-job count is positive) and can be served at once: its expiry, the select
+   taking the job arm, the delivery and the call are all enabled, and they run its callback. *)
+Theorem live_timeout_can_run s id t :
+  reach kind_of s -> phase s = LHead -> find_t (timers s) id = Some t -> tj_kind t = TTimeout -> tj_cancelled t = false -> tj_h t <> HDone ->
+  step kind_of s run_leave 0 0 = None /\
+  exists s', run_evs kind_of s ((if match tj_h t with HArmed => true | _ => false end then [EP timer_fire id 0] else []) ++
+                                [EP run_select 0 2; EE e_delivered_timeout id 0 0; EP arm_job 0 0]) = Some s' /\
+             cbs s' = cbs s ++ [id] /\ phase s' = LHead.
+Proof.
+  intros R Hp Hf Hk Hc Hh. destruct (reach_Inv _ _ R) as [C T].
+  assert (Hpos : count_positive s = true).
+  { unfold count_positive. rewrite (t_count _ T). unfold live. pose proof (find_live_positive _ _ _ Hf Hc) as Hl.
+    unfold bgc. destruct (background s && counted (phase s)); apply Z.ltb_lt; lia. }
+  assert (Htph : tph s = TNone).
+  { destruct (tph s) eqn:Et; [reflexivity| | | | |]; (destruct (c_term _ C) as [Hr _]; [rewrite Et; discriminate|]; rewrite (c_run _ C Hr) in Hp; discriminate). }
+  assert (Hpend : pending s = None).
+  { destruct (pending s) eqn:E; [|reflexivity]. assert (Hx : phase s = LArmJ) by (apply (c_pending _ C); rewrite E; discriminate). rewrite Hp in Hx. discriminate. }
+  split; [cbn; rewrite Hp, Hpos; reflexivity|].
+  (* the state in which the expiry goroutine exists *)
+  set (s1 := set_h s id HRunning).
+  assert (Hf1 : find_t (timers s1) id = Some (t <| tj_h := HRunning |>)) by (apply set_h_keeps_find; exact Hf).
+  assert (Hfire : run_evs kind_of s (if match tj_h t with HArmed => true | _ => false end then [EP timer_fire id 0] else []) = Some s1 \/
+                  (tj_h t = HRunning /\ run_evs kind_of s (if match tj_h t with HArmed => true | _ => false end then [EP timer_fire id 0] else []) = Some s)).
+  { destruct (tj_h t) eqn:Eh; [left|right|contradiction Hh; reflexivity].
+    - cbn. rewrite Hf, Hk, Eh. unfold offer. cbn. rewrite Hp. reflexivity.
+    - split; [reflexivity|]. reflexivity. }
+  assert (Hrest : forall s0, phase s0 = LHead -> count_positive s0 = true -> tph s0 = TNone -> pending s0 = None -> cbs s0 = cbs s ->
+             (exists t0, find_t (timers s0) id = Some t0 /\ tj_kind t0 = TTimeout /\ tj_cancelled t0 = false /\ tj_h t0 = HRunning) ->
+             exists s', run_evs kind_of s0 [EP run_select 0 2; EE e_delivered_timeout id 0 0; EP arm_job 0 0] = Some s' /\ cbs s' = cbs s ++ [id] /\ phase s' = LHead).
+  { intros s0 Hp0 Hpos0 Ht0 Hpe0 Hcb0 (t0 & Hf0 & Hk0 & Hc0 & Hh0).
+    cbn [run_evs do_ev step]. rewrite Hp0, Hpos0. cbn.
+    rewrite Hf0, Hk0, Hh0. unfold deliver. cbn. rewrite Ht0, Hpe0. cbn.
+    unfold do_timeout. cbn.
+    match goal with |- context [find_t (upd_t (timers s0) id ?f) id] => rewrite (find_upd_same (timers s0) id f t0 Hf0 eq_refl) end. cbn. rewrite Hc0. cbn.
+    eexists. split; [reflexivity|]. cbn. rewrite Hcb0. split; reflexivity. }
+  destruct Hfire as [Hfire|[Eh Hfire]].
+  - destruct (Hrest s1) as (s' & H1 & H2 & H3).
+    + exact Hp.
+    + exact Hpos.
+    + exact Htph.
+    + exact Hpend.
+    + reflexivity.
+    + eexists. split; [exact Hf1|]. cbn. auto.
+    + exists s'. split; [|split; assumption]. eapply run_evs_app; eassumption.
+  - destruct (Hrest s) as (s' & H1 & H2 & H3); try assumption; try reflexivity.
+    + exists t. auto.
+    + exists s'. split; [|split; assumption]. eapply run_evs_app; eassumption.
+Qed.
+
+End TimerCanRun.
